@@ -229,3 +229,41 @@ class Harness:
 
 def default_hints(keys) -> Dict[str, str]:
     return {k: f"Hinweis {k}" for k in keys if refsem.key_kind(k) == "hint"}
+
+
+IS_VALID = "ahbicht.content_evaluation.is_valid_expression"
+
+
+def run_is_valid(model: SrcModel, t_or_str, chooser=None):
+    """Abstract run of is_valid_expression with a setter that re-configures the stub evaluators from the generated
+    ContentEvaluationResult. Returns (result tuple | ('raise', cls), number of evaluations that were started)."""
+    h = Harness(model, chooser)
+    it = h.it
+    stub = model.module(STUB_MODULE)
+    make_rc = FuncVal(fn=stub.functions["make_rc_method"], module=stub)
+    make_fc = FuncVal(fn=stub.functions["make_fc_method"], module=stub)
+    counter = {"n": 0}
+
+    def setter(it_, args, kwargs):
+        cer = args[0]
+        if not isinstance(cer, Obj):
+            raise Unsupported(f"setter called with {cer!r}")
+        counter["n"] += 1
+        rcs = cer.fields.get("requirement_constraints") or {}
+        fcs = cer.fields.get("format_constraints") or {}
+        h.rc_eval.fields["_evaluation_methods"] = {k: it.call(make_rc, [v, False], {}, None, None) for k, v in rcs.items()}
+        fm = {}
+        for k, v in fcs.items():
+            fm[k] = it.call(make_fc, [{"*": (v.fields.get("format_constraint_fulfilled"), v.fields.get("error_message"))}, False], {}, None, None)
+        h.fc_eval.fields["_evaluation_methods"] = fm
+        h.hints.fields["table"] = dict(cer.fields.get("hints") or {})
+        return None
+
+    it.ext_handlers["vstat.setter"] = setter
+    from .fdvalues import ExtVal
+
+    try:
+        res = h.call(IS_VALID, t_or_str, ExtVal("vstat.setter"))
+    except PyRaise as err:
+        return ("raise", err.exc.cls), counter["n"]
+    return res, counter["n"]
